@@ -246,10 +246,17 @@ def pduOp (op : String) (args : List String) : Option String :=
       -- outside the property's domain: the library caps short_message at 140 octets (MaxShortMessageLength)
       let over140 := vals.any fun x => match x with | .sm m => m.msg.length > 140 | _ => false
       if !(vals.all Smpp.Spec.expressible) || !h.seqPos || over140 then some "not-carried" else
-      -- a field the Go codec skips is still a parameter of the specification (1-octet integer)
-      let body := vals.flatMap fun x => match x with
+      -- the parameters in the SPECIFICATION's order, each taken from the Go field that is to carry it (by name), then the
+      -- optional parameters; a field the Go codec skips is still a parameter of the specification (1-octet integer)
+      let named := (L.fields.drop 1).zip vals
+      let enc := fun (x : FVal) => match x with
         | .skipped n => [UInt8.ofNat n]
         | y => Smpp.Spec.param L.isReplace y
+      match op.params.mapM (fun p => (named.find? (fun fv => fv.1.name == p.goField)).map (·.2)) with
+      | none => some "spec-parameter-without-field"
+      | some mand =>
+      let tl := (named.filter (fun fv => fv.1.kind == .tags)).map (·.2)
+      let body := (mand ++ tl).flatMap enc
       if 16 + body.length > 65536 then some "not-carried" else
       some s!"ok {toHex (Smpp.Spec.int4 (16 + body.length) ++ Smpp.Spec.int4 op.id ++ Smpp.Spec.int4 h.status.toNat ++ Smpp.Spec.int4 h.seq.toNat ++ body)}"
     | _, _ => some "no-spec"
